@@ -791,7 +791,11 @@ def search(run, rng, quick):
             continue
         steps = [ck.expectation, ck.expectations, ck.expectations, ck.occupations, ck.edof_rdm, ck.rdms, ck.entropies]
         for st in steps:
-            st()
+            try:
+                st()
+            except Exception as e:
+                # the property promises a value for every input generated here
+                ck.fail(f"{st.__name__}:{case.form}:raises:{type(e).__name__}", dict(error=repr(e)[:300]))
         bd = tuple(case.mp.bond_dims)
         if max(bd) > 1 or case.n == 1:
             distinct.add((tuple(map(str, case.desc)), case.form, case.cplx, bd, tuple(case.hist)))
